@@ -557,8 +557,55 @@ def allowed_kernels(asserts: List[Term], k: Term) -> set:
     return out
 
 
+def r16e(ctx):
+    """Tiling consistency: whenever a quantity is split into full tiles and a ragged
+    remainder (FloorDivideSTE / ModuloSTE, floor_divide / %), quotient and remainder use the
+    same tile size.  This is the premise of the tiling lemma (full tiles + one ragged tile is
+    non-decreasing in the quantity); with different divisors channels are counted twice or
+    dropped and the cost falls at tile boundaries."""
+    repo = ctx.repo
+    n = 0
+    for fn in repo.all_functions():
+        if not fn.module.name.startswith('plinio.cost'):
+            continue
+        quot: Dict[Term, set] = {}
+        rem: Dict[Term, set] = {}
+        for p in paths(repo, fn):
+            terms = [x for e in p.events for x in e.data if isinstance(x, tuple)]
+            if p.retval is not None:
+                terms.append(p.retval)
+            for t in terms:
+                for x in subterms(t):
+                    c = callee(x) if x[0] == 'call' else None
+                    if c and c.endswith('FloorDivideSTE.apply') and len(x[2]) == 2:
+                        quot.setdefault(x[2][0], set()).add(x[2][1])
+                    elif c and c.endswith('ModuloSTE.apply') and len(x[2]) == 2:
+                        rem.setdefault(x[2][0], set()).add(x[2][1])
+                    elif c in ('torch.floor_divide',) and len(x[2]) == 2:
+                        quot.setdefault(x[2][0], set()).add(x[2][1])
+                    elif x[0] == 'bin' and x[1] == '//':
+                        quot.setdefault(x[2], set()).add(x[3])
+                    elif x[0] == 'bin' and x[1] == '%':
+                        rem.setdefault(x[2], set()).add(x[3])
+        for q in sorted(set(quot) & set(rem), key=repr):
+            n += 1
+            ok = quot[q] == rem[q]
+            ctx.ob('R16e', f'{_fq16(fn)} tiles of {short(q, 50)}', ok,
+                   f'quotient and remainder both by {[short(b, 40) for b in quot[q]]}' if ok else
+                   f'{short(q, 50)} is divided by {[short(b, 40) for b in quot[q]]} for the full '
+                   f'tiles but taken modulo {[short(b, 40) for b in rem[q]]} for the remainder: '
+                   f'the model is no longer "full tiles plus one ragged tile" and is not '
+                   f'monotone in that quantity', where(fn))
+    ctx.floor('R16e', 'quotient/remainder pairs', n, 5)
+
+
+def _fq16(fn: FunctionInfo) -> str:
+    return (fn.cls.name + '.' if fn.cls else '') + fn.name
+
+
 def run(ctx):
     specs = cost_specs(ctx.repo)
+    r16e(ctx)
     r16a(ctx, specs)
     r16b(ctx)
     r16c(ctx, specs)
